@@ -268,3 +268,25 @@ def run(repo: Repo, rep: Report, tier: str) -> None:
     # ---------------- R9 ---------------------------------------------------------------
     _borrow12b(repo, rep, "C15", "C15-R3", "C12-R9", "two expansions of one declaration never share a memory cell: a re-declaration is recognised because the builder indexes every node",
                select=lambda o: "indexes every node" in o.construct or "memory id" in o.construct, floor=2)
+
+    # ---------------- R10 --------------------------------------------------------------
+    rep.rule("C12-R10", "two computations that share an input do not see each other's operands: a source wired to two sinks joins their inputs on its colour, so a signal name the "
+             "two sinks get from different sources must not travel on that colour — besides the per-sink conflicts plan_wire_colors builds conflicts from the fan-out of each "
+             "source (a table source -> its sinks, pairs of sinks, `graph[joining].add(other)`); without that pass `x = a * b; y = c * b` with a, c on one signal gives "
+             "(a + c) * b twice")
+    pw10 = repo.func("plan_wire_colors")
+    fan = set()
+    for c10_ in calls_in(pw10.node, "add"):
+        # <table>[<node key>].add(<sink id>): a table from a source to the sinks it reaches
+        if isinstance(c10_.func, ast.Attribute) and isinstance(c10_.func.value, ast.Subscript) and isinstance(c10_.func.value.value, ast.Name) and c10_.args and "sink" in norm(c10_.args[0]) \
+                and "sink" not in norm(c10_.func.value.slice) and c10_.func.value.value.id != "graph":
+            fan.add(c10_.func.value.value.id)
+    passes10 = []
+    for loop in [n for n in walk_local(pw10.node) if isinstance(n, ast.For)]:
+        it = norm(loop.iter)
+        if any(re.search(rf"\b{re.escape(t)}\b", it) for t in fan) and isinstance(loop.target, ast.Tuple) and isinstance(loop.target.elts[0], ast.Name):
+            j = loop.target.elts[0].id
+            if any(isinstance(x, ast.Call) and call_name(x) == "add" and norm(x.func).startswith(f"graph[{j}]") for x in ast.walk(loop)):
+                passes10.append(loop)
+    rep.check(bool(passes10), "C12-R10", "plan_wire_colors separates a fanned-out source from the differing sources of its sinks", f"fan-out table(s) {sorted(fan)}; conflict pass present" if passes10 else
+              "conflicts are built per sink only: sources that meet through a third source's fan-out stay on one colour", pw10.loc())
